@@ -21,7 +21,7 @@ import (
 	"github.com/hashicorp/go-slug/sourcebundle"
 )
 
-// robust lane (C19): every entry point on hostile input, each case in a watched worker process
+// robust lane (C19; resource-limit cases for C02, C12, C15): every entry point on hostile input, each case in a watched worker process
 // (time limit, memory limit, bounded stack), so that panics, stack exhaustion and hangs are
 // observed as exit status / timeout instead of taking the harness down.
 
@@ -32,6 +32,130 @@ type RCase struct {
 	Ignore bool    `json:"ignore,omitempty"`
 	Data   []byte  `json:"data,omitempty"`
 	Text   string  `json:"text,omitempty"`
+	// resource-limit kinds (the case is complete without Data: the child builds its archive from Files):
+	//   unpack-nofile   : Unpack of a generated archive with Files small regular files while the soft
+	//                     RLIMIT_NOFILE is Limit (seed C02-g: every extracted file kept open until Unpack returns)
+	//   pack-nofile     : Pack of Nodes while the soft RLIMIT_NOFILE is Limit (0..3: nothing can be opened;
+	//                     seed C12-g: a walk root that cannot be read gives an empty slug and no error; 16 and
+	//                     more: a control, Pack must succeed with a complete slug)
+	//   pack-unreadable : Pack of Nodes as user Uid (unprivileged; a directory of mode 0300 cannot be read)
+	Files int `json:"files,omitempty"`
+	Limit int `json:"limit,omitempty"`
+	Uid   int `json:"uid,omitempty"`
+	// Truncated: Data was shortened for the report (such a case cannot be replayed exactly)
+	Truncated bool `json:"truncated,omitempty"`
+}
+
+// verdictExit: a worker that has judged its own case (resource-limit kinds) exits with this status after
+// writing one line "VERDICT <property> <text>" per violated property to stderr.
+const verdictExit = 10
+
+// setupExit: the worker could not set its case up (machinery, not a finding)
+const setupExit = 3
+
+func verdict(lines ...string) {
+	for _, l := range lines {
+		fmt.Fprintln(os.Stderr, "VERDICT "+l)
+	}
+	os.Exit(verdictExit)
+}
+
+// withNofile runs f while the soft RLIMIT_NOFILE is limit; descriptors that are already open stay usable
+// (stdio, the runtime's poller), so the worker can still report afterwards.
+func withNofile(limit int, f func()) error {
+	var old syscall.Rlimit
+	if err := syscall.Getrlimit(syscall.RLIMIT_NOFILE, &old); err != nil {
+		return err
+	}
+	lim := old
+	lim.Cur = uint64(limit)
+	if lim.Cur > lim.Max {
+		lim.Cur = lim.Max
+	}
+	if err := syscall.Setrlimit(syscall.RLIMIT_NOFILE, &lim); err != nil {
+		return err
+	}
+	defer syscall.Setrlimit(syscall.RLIMIT_NOFILE, &old)
+	f()
+	return nil
+}
+
+// manyFilesArchive: n small regular files (modes 0644 / 0600, distinct times) in directories of 50, an empty
+// directory and a relative link; what Pack writes for such a tree.
+func manyFilesArchive(n int) []UEntry {
+	var es []UEntry
+	for i := 0; i < n; i++ {
+		if i%50 == 0 {
+			es = append(es, UEntry{Name: fmt.Sprintf("d%03d/", i/50), Typ: tar.TypeDir, Mode: 0755, Mtime: 1400000000 + int64(i), Fmt: "auto"})
+		}
+		es = append(es, UEntry{Name: fmt.Sprintf("d%03d/f%05d.tf", i/50, i), Typ: tar.TypeReg, Mode: []int64{0644, 0600}[i%2], Mtime: 1400000000 + int64(i), Body: fmt.Sprintf("file %d\n", i), Fmt: "auto"})
+	}
+	es = append(es, UEntry{Name: "empty/", Typ: tar.TypeDir, Mode: 0750, Mtime: 1400000000, Fmt: "auto"},
+		UEntry{Name: "link", Typ: tar.TypeSymlink, Link: "d000/f00000.tf", Mode: 0777, Mtime: 1400000000, Fmt: "auto"})
+	return es
+}
+
+// packExpect: the entry names a complete slug of the plain tree below p/src has (files, directories with a
+// trailing slash, links; with dereferencing, a link to ../ext/<dir> stands for that directory: its content
+// is listed below the link's name). Trees of the resource-limit kinds have no rule file and no special files.
+func packExpect(nodes []PNode, deref bool) []string {
+	var want []string
+	linkTo := map[string]string{} // link path -> arena path of the directory it points at (deref only)
+	for _, n := range nodes {
+		if n.Kind == "l" && strings.HasPrefix(n.Path, "p/src/") && deref && strings.HasPrefix(n.Data, "../ext/") {
+			linkTo[n.Path] = "p/ext/" + strings.TrimPrefix(n.Data, "../ext/")
+		}
+	}
+	for _, n := range nodes {
+		if !strings.HasPrefix(n.Path, "p/src/") {
+			for l, d := range linkTo {
+				if strings.HasPrefix(n.Path, d+"/") {
+					rel := strings.TrimPrefix(l, "p/src/") + "/" + strings.TrimPrefix(n.Path, d+"/")
+					if n.Kind == "d" {
+						rel += "/"
+					}
+					want = append(want, rel)
+				}
+			}
+			continue
+		}
+		if linkTo[n.Path] != "" {
+			continue // the dereferenced directory has no entry of its own, its content is listed below the link's name
+		}
+		rel := strings.TrimPrefix(n.Path, "p/src/")
+		if n.Kind == "d" {
+			rel += "/"
+		}
+		want = append(want, rel)
+	}
+	return want
+}
+
+// judgePackComplete: Pack returned err and wrote buf; nil error means the slug must list every expected name.
+func judgePackComplete(c *RCase, err error, buf *bytes.Buffer, under string) {
+	if err != nil {
+		return
+	}
+	es, _, derr := decodeSlug(buf.Bytes())
+	have := map[string]bool{}
+	for _, e := range es {
+		have[e.Name] = true
+		if e.Typ == tar.TypeDir {
+			have[strings.TrimSuffix(e.Name, "/")+"/"] = true
+		}
+	}
+	var missing []string
+	for _, w := range packExpect(c.Nodes, c.Deref) {
+		if !have[w] {
+			missing = append(missing, w)
+		}
+	}
+	if derr != nil || len(missing) > 0 {
+		if len(missing) > 8 {
+			missing = append(missing[:8], "...")
+		}
+		verdict(fmt.Sprintf("C12 Pack %s returned success but the slug is partial: %d entries, missing %q (a source that cannot be read must be reported)", under, len(es), missing))
+	}
 }
 
 func init() {
@@ -59,9 +183,84 @@ func init() {
 			p, _ := slug.NewPacker(opts...)
 			p.Pack(filepath.Join(arena, "p/src"), io.Discard)
 		case "unpack":
-			dst := filepath.Join(cfg.Work, "dst")
+			// dst sits three levels below the scratch directory of the lane (targets that climb, also after a
+			// rewriting of separators, stay inside it)
+			dst := filepath.Join(cfg.Work, "p/q/dst")
 			os.MkdirAll(dst, 0755)
 			slug.Unpack(bytes.NewReader(c.Data), dst)
+		case "unpack-nofile":
+			es := manyFilesArchive(c.Files)
+			data := buildTarGz(es)
+			dst := filepath.Join(cfg.Work, "p/q/dst")
+			if os.MkdirAll(dst, 0755) != nil || c.Files <= 0 || c.Limit < 16 {
+				os.Exit(setupExit)
+			}
+			var uerr error
+			if withNofile(c.Limit, func() { uerr = slug.Unpack(bytes.NewReader(data), dst) }) != nil {
+				os.Exit(setupExit)
+			}
+			what := ""
+			if uerr != nil {
+				what = fmt.Sprintf("Unpack of an archive with %d regular files fails under RLIMIT_NOFILE=%d, a descriptor limit that a correct implementation never reaches (one file open at a time): %v", c.Files, c.Limit, uerr)
+			} else {
+				missing := 0
+				first := ""
+				for _, e := range es {
+					fi, err := os.Lstat(filepath.Join(dst, e.Name))
+					bad := err != nil
+					if !bad && e.Typ == tar.TypeReg {
+						b, rerr := os.ReadFile(filepath.Join(dst, e.Name))
+						bad = rerr != nil || string(b) != e.Body || int64(fi.Mode().Perm()) != e.Mode || fi.ModTime().Unix() != e.Mtime
+					}
+					if bad {
+						if missing == 0 {
+							first = e.Name
+						}
+						missing++
+					}
+				}
+				if missing > 0 {
+					what = fmt.Sprintf("Unpack of an archive with %d regular files under RLIMIT_NOFILE=%d returned nil but %d entries are missing or differ (first: %q)", c.Files, c.Limit, missing, first)
+				}
+			}
+			if what != "" {
+				verdict("C02 "+what, "C15 "+what)
+			}
+		case "pack-nofile", "pack-unreadable":
+			arena := filepath.Join(cfg.Work, "arena")
+			if materialiseP(arena, c.Nodes) != nil {
+				os.Exit(setupExit)
+			}
+			var opts []slug.PackerOption
+			if c.Deref {
+				opts = append(opts, slug.DereferenceSymlinks())
+			}
+			p, perr := slug.NewPacker(opts...)
+			if perr != nil {
+				os.Exit(setupExit)
+			}
+			var buf bytes.Buffer
+			var err error
+			if c.Kind == "pack-nofile" {
+				if c.Limit < 0 || (c.Limit > 3 && c.Limit < 16) || withNofile(c.Limit, func() { _, err = p.Pack(filepath.Join(arena, "p/src"), &buf) }) != nil {
+					os.Exit(setupExit)
+				}
+				under := fmt.Sprintf("under RLIMIT_NOFILE=%d (no directory can be opened)", c.Limit)
+				if c.Limit > 3 {
+					// control: descriptors to spare, Pack succeeds and the slug must be complete
+					under = fmt.Sprintf("under RLIMIT_NOFILE=%d", c.Limit)
+					if err != nil {
+						verdict(fmt.Sprintf("C12 Pack %s of a readable tree fails, with descriptors to spare (one directory or file open at a time): %v", under, err))
+					}
+				}
+				judgePackComplete(&c, err, &buf, under)
+			} else {
+				if os.Geteuid() == 0 {
+					os.Exit(setupExit) // root reads every directory: the case says nothing
+				}
+				_, err = p.Pack(filepath.Join(arena, "p/src"), &buf)
+				judgePackComplete(&c, err, &buf, fmt.Sprintf("as uid %d of a tree with a directory it cannot read (mode 0300)", os.Geteuid()))
+			}
 		case "opendir":
 			dir := filepath.Join(cfg.Work, "bundle")
 			os.MkdirAll(dir, 0755)
@@ -88,7 +287,7 @@ func init() {
 	}
 
 	lanes["robust"] = func(cfg *Config, rep *Report) {
-		rep.Rule = "watched worker process per case (10 s, GOMEMLIMIT 512 MiB, 64 MiB stack): Pack over trees with link cycles inside and outside the tree, dereferenced directories containing themselves, links to fifos, odd names; Unpack over structurally mutated tar streams (type flags, names, sizes, truncations; checksums repaired by archive/tar); OpenDir over mutated manifest documents; the four parsers over mutated address strings; non-trivial = every case; distinct by case"
+		rep.Rule = "watched worker process per case (10 s, GOMEMLIMIT 512 MiB, 64 MiB stack): Pack over trees with link cycles inside and outside the tree, dereferenced directories containing themselves, links to fifos, odd names; Unpack over structurally mutated tar streams (type flags, names, sizes, truncations; checksums repaired by archive/tar); OpenDir over mutated manifest documents; the four parsers over mutated address strings; plus max(7, N/20) resource-limit cases judged by the worker itself (C02/C15: Unpack of 48..79 regular files under a soft RLIMIT_NOFILE of 24 or 32 must succeed and materialise all of them; C12: Pack of a small plain tree under RLIMIT_NOFILE 0..3 (and, as a control of the completeness check, 24 or 32), and Pack as uid 65534 of a tree whose root / dereferenced outside directory / sub-directory has mode 0300, must return an error or a complete slug); non-trivial = every case; distinct by case"
 		r := NewRng(cfg.Seed)
 		self, _ := os.Executable()
 		var cases []RCase
@@ -158,14 +357,31 @@ func init() {
 				cases = append(cases, RCase{Kind: "parse", Text: genAddr(r) + r.Pick([]string{"", "", "//", "@", "::", "\x00", "?", "//..", "@1.0.0", "@x//"})})
 			}
 		}
+		// resource-limit cases, on top of the N hostile-input cases (and after them in the random stream):
+		// at least one of each shape
+		nres := cfg.N / 20
+		if nres < len(resourceShapes) {
+			nres = len(resourceShapes)
+		}
+		for k := 0; k < nres; k++ {
+			cases = append(cases, genResourceCase(r, k))
+		}
+		// exact replay (-case): the recorded case is run first, alone, through the same watched worker
+		replayIdx := -1
+		var rc RCase
+		if loadReplayInput(cfg, "robust", &rc) {
+			if why := unsafeRCase(&rc); why != "" {
+				rep.ReplayNote("refused: " + why)
+			} else {
+				cases = append(cases, rc)
+				replayIdx = len(cases) - 1
+			}
+		} else {
+			replayMissing(cfg, rep, "robust")
+		}
 		var wg sync.WaitGroup
 		sem := make(chan struct{}, 16)
-		for i := range cases {
-			wg.Add(1)
-			sem <- struct{}{}
-			go func(i int) {
-				defer wg.Done()
-				defer func() { <-sem }()
+		runCase := func(i int) {
 				c := cases[i]
 				dir := filepath.Join(cfg.Work, fmt.Sprintf("rb%06d", i))
 				os.MkdirAll(dir, 0755)
@@ -175,7 +391,26 @@ func init() {
 				os.WriteFile(cf, b, 0644)
 				ctx, cancel := context.WithTimeout(context.Background(), 10*time.Second)
 				defer cancel()
-				cmd := exec.CommandContext(ctx, self, "-lane", "robust-child", "-replay", cf, "-work", dir, "-out", filepath.Join(dir, "out.json"))
+				args := []string{"-lane", "robust-child", "-replay", cf, "-work", dir, "-out", filepath.Join(dir, "out.json")}
+				if c.Kind == "pack-unreadable" {
+					if os.Geteuid() == 0 {
+						// the worker drops to the case's uid before it builds and packs the tree (main.go: -uid
+						// chowns the scratch directory first; no model driver is needed there)
+						if c.Uid <= 0 {
+							rep.Count("skipped:pack-unreadable-without-uid")
+							return
+						}
+						os.Chmod(dir, 0755)
+						if !othersCanReach(dir) {
+							// a scratch directory below one that other users cannot traverse (TMPDIR under /root):
+							// the unprivileged worker could not even read its case
+							rep.Count("skipped:pack-unreadable-scratch-not-reachable-unprivileged")
+							return
+						}
+						args = append(args, "-uid", fmt.Sprint(c.Uid), "-driver", "")
+					}
+				}
+				cmd := exec.CommandContext(ctx, self, args...)
 				cmd.Env = append(os.Environ(), "GOMEMLIMIT=512MiB", "GOTRACEBACK=none")
 				cmd.SysProcAttr = &syscall.SysProcAttr{Setpgid: true}
 				var stderr bytes.Buffer
@@ -191,6 +426,44 @@ func init() {
 					return
 				}
 				what := ""
+				code := -1
+				if ee, ok := err.(*exec.ExitError); ok {
+					code = ee.ExitCode()
+				}
+				if ctx.Err() == nil && code == 2 && c.Kind == "pack-unreadable" && (strings.Contains(stderr.String(), "setuid:") || strings.Contains(stderr.String(), "setgid:")) {
+					// main.go could not switch to the unprivileged user (a sandbox without that uid mapped)
+					rep.Count("skipped:cannot-drop-privileges")
+					return
+				}
+				if ctx.Err() == nil && code == setupExit {
+					// the worker could not set the case up: machinery, not a finding
+					rep.Count("outcome:setup-failed")
+					rep.mu.Lock()
+					rep.Broken = append(rep.Broken, fmt.Sprintf("robust worker could not set up its %s case: %s", c.Kind, strings.TrimSpace(stderr.String())))
+					rep.mu.Unlock()
+					return
+				}
+				if ctx.Err() == nil && code == verdictExit {
+					// the worker judged its own case: one failure per property named
+					rep.Count("outcome:verdict")
+					n := 0
+					for _, l := range strings.Split(stderr.String(), "\n") {
+						if !strings.HasPrefix(l, "VERDICT ") {
+							continue
+						}
+						f := strings.SplitN(strings.TrimPrefix(l, "VERDICT "), " ", 2)
+						if len(f) == 2 {
+							n++
+							rep.AddOracle(OracleFailure{Property: f[0], Lane: "robust", What: c.Kind + ": " + f[1], Input: c})
+						}
+					}
+					if n == 0 {
+						rep.mu.Lock()
+						rep.Broken = append(rep.Broken, "robust worker exited with the verdict status but wrote no verdict")
+						rep.mu.Unlock()
+					}
+					return
+				}
 				if ctx.Err() != nil {
 					what = "did not return within 10 s"
 					rep.Count("outcome:timeout")
@@ -205,12 +478,139 @@ func init() {
 				small := c
 				if len(small.Data) > 600 {
 					small.Data = small.Data[:600]
+					small.Truncated = true
 				}
 				rep.AddOracle(OracleFailure{Property: "C19", Lane: "robust", What: c.Kind + " " + what, Input: small, Signature: sigs[i]})
+		}
+		if replayIdx >= 0 {
+			rep.BeginReplay()
+			runCase(replayIdx)
+			rep.EndReplay()
+		}
+		// the resource-limit cases (the longest-running ones) are started first, so that they overlap with
+		// the others
+		order := make([]int, 0, len(cases))
+		for i := cfg.N; i < len(cases); i++ {
+			order = append(order, i)
+		}
+		for i := 0; i < cfg.N && i < len(cases); i++ {
+			order = append(order, i)
+		}
+		for _, i := range order {
+			if i == replayIdx {
+				continue
+			}
+			wg.Add(1)
+			sem <- struct{}{}
+			go func(i int) {
+				defer wg.Done()
+				defer func() { <-sem }()
+				runCase(i)
 			}(i)
 		}
 		wg.Wait()
 	}
+}
+
+// ---------- resource-limit cases ----------
+
+var resourceShapes = []string{"unpack-nofile", "pack-nofile", "pack-unreadable:root", "pack-unreadable:deref", "pack-nofile:deref", "pack-unreadable:sub", "pack-nofile:control"}
+
+// plainTree: a small source tree of regular files and directories below p/src (what a complete slug must
+// list is packExpect), next to an outside directory p/ext/shared for the dereference shapes.
+func plainTree(r *Rng) []PNode {
+	nodes := []PNode{
+		{Path: "p", Kind: "d", Perm: 0755, Mtime: 1300000000e9},
+		{Path: "p/src", Kind: "d", Perm: 0755, Mtime: 1300000001e9},
+		{Path: "p/src/a.tf", Kind: "f", Perm: 0644, Mtime: 1400000000e9, Data: "a"},
+		{Path: "p/src/sub", Kind: "d", Perm: 0755, Mtime: 1400000001e9},
+		{Path: "p/src/sub/b.tf", Kind: "f", Perm: 0600, Mtime: 1400000002e9, Data: "b"},
+		{Path: "p/ext", Kind: "d", Perm: 0755, Mtime: 1300000002e9},
+		{Path: "p/ext/shared", Kind: "d", Perm: 0755, Mtime: 1300000003e9},
+		{Path: "p/ext/shared/shared.tf", Kind: "f", Perm: 0644, Mtime: 1300000004e9, Data: "shared"},
+	}
+	for i, n := 0, r.Intn(4); i < n; i++ {
+		nodes = append(nodes, PNode{Path: fmt.Sprintf("p/src/sub/deep%d", i), Kind: "d", Perm: 0755, Mtime: 1400000003e9},
+			PNode{Path: fmt.Sprintf("p/src/sub/deep%d/c.tf", i), Kind: "f", Perm: 0644, Mtime: 1400000004e9, Data: "c"})
+	}
+	return nodes
+}
+
+func setPerm(nodes []PNode, path string, perm uint32) {
+	for k := range nodes {
+		if nodes[k].Path == path {
+			nodes[k].Perm = perm
+		}
+	}
+}
+
+func genResourceCase(r *Rng, k int) RCase {
+	switch shape := resourceShapes[k%len(resourceShapes)]; shape {
+	case "unpack-nofile":
+		// more regular files than the limit leaves descriptors for, were they all kept open
+		// (kept small: the worker's own descriptors are fewer than ten, a correct Unpack needs one more)
+		return RCase{Kind: "unpack-nofile", Files: 48 + r.Intn(32), Limit: 24 + 8*r.Intn(2)}
+	case "pack-nofile":
+		return RCase{Kind: "pack-nofile", Nodes: plainTree(r), Limit: r.Intn(4)}
+	case "pack-nofile:deref":
+		c := RCase{Kind: "pack-nofile", Nodes: plainTree(r), Limit: r.Intn(4), Deref: true}
+		c.Nodes = append(c.Nodes, PNode{Path: "p/src/shared", Kind: "l", Data: "../ext/shared"})
+		return c
+	case "pack-nofile:control":
+		// descriptors to spare: Pack succeeds, and the completeness check itself is exercised on every run
+		c := RCase{Kind: "pack-nofile", Nodes: plainTree(r), Limit: 24 + 8*r.Intn(2), Deref: true}
+		c.Nodes = append(c.Nodes, PNode{Path: "p/src/shared", Kind: "l", Data: "../ext/shared"})
+		return c
+	case "pack-unreadable:root":
+		c := RCase{Kind: "pack-unreadable", Nodes: plainTree(r), Uid: 65534, Deref: r.Bool()}
+		setPerm(c.Nodes, "p/src", 0300)
+		return c
+	case "pack-unreadable:deref":
+		c := RCase{Kind: "pack-unreadable", Nodes: plainTree(r), Uid: 65534, Deref: true}
+		c.Nodes = append(c.Nodes, PNode{Path: "p/src/shared", Kind: "l", Data: "../ext/shared"})
+		setPerm(c.Nodes, "p/ext/shared", 0300)
+		return c
+	default: // a directory below the root that cannot be read
+		c := RCase{Kind: "pack-unreadable", Nodes: plainTree(r), Uid: 65534}
+		setPerm(c.Nodes, "p/src/sub", 0300)
+		return c
+	}
+}
+
+// othersCanReach: every ancestor of dir (and dir) has the search bit for others
+func othersCanReach(dir string) bool {
+	for p := filepath.Clean(dir); ; p = filepath.Dir(p) {
+		fi, err := os.Stat(p)
+		if err != nil || fi.Mode().Perm()&0001 == 0 {
+			return false
+		}
+		if p == "/" || p == "." {
+			return true
+		}
+	}
+}
+
+// unsafeRCase: a replayed case must stay inside its scratch directory ("" = accepted). Cases that carry raw
+// archive or manifest bytes are not replayed (their content is not checked here, and reports shorten it).
+func unsafeRCase(c *RCase) string {
+	switch c.Kind {
+	case "pack", "pack-nofile", "pack-unreadable":
+		if len(c.Nodes) == 0 {
+			return "the recorded input has no tree"
+		}
+		if c.Kind == "pack-unreadable" && c.Uid <= 0 {
+			return "the recorded input names no unprivileged uid"
+		}
+		return unsafePNodes(c.Nodes, nil)
+	case "unpack-nofile":
+		if c.Files <= 0 || c.Files > 5000 || c.Limit < 16 {
+			return "file count / descriptor limit out of range"
+		}
+		return ""
+	case "parse":
+		return ""
+	}
+	return fmt.Sprintf("cases of kind %q carry raw bytes and are not replayed", c.Kind)
 }
 
 func mustGunzip(data []byte) []byte {
